@@ -4,9 +4,9 @@ import UscxmlVerif.Chart.Doc
 
 The part of the interpreter state that executable content can touch (`XS`): both queues, the
 observation log (monitor notifications, log lines) and — read only — the configuration for
-`In()`. A failing element enqueues its error event, reports `afterExecutingContent` for
-itself only, and aborts the enclosing block (the C++ rethrows a plain `Event`, which the
-enclosing `<if>`'s `catch (ErrorEvent)` does not catch).
+`In()`. A failing element enqueues its error event, reports `afterExecutingContent`, and
+aborts the enclosing block; an enclosing `<if>` reports its own `afterExecutingContent` on the
+way out (the C++ rethrows a plain `Event`).
 -/
 namespace UscxmlVerif.Model
 
@@ -56,7 +56,7 @@ def exec (c : Chart) (config : List Nat) : Exec → XS → XS × Bool
     let x := x.emit s!"bc:{uv}"
     let (x, b) := evalCond c config x cond
     let (x, ok) := execIf c config children b x
-    if ok then (x.emit s!"ac:{uv}", true) else (x, false)
+    (x.emit s!"ac:{uv}", ok)
   | .elseif _, x => (x, true)
   | .else_, x => (x, true)
 
